@@ -34,7 +34,8 @@ ProgsN1 == SeqsUpTo(OpsN, 1)
 ProgsN2 == SeqsUpTo(OpsN, 2)
 ProgsA1 == SeqsUpTo(OpsA, 1)
 ProgsA2 == SeqsUpTo(OpsA, 2)
-OpsQ == {Resched, SleepN(1), SelT(2), SelFD("a", 1), Block, Raise, Call(<<SleepOp(1)>>, "ret"), Call(<<>>, "throw"),
+\* (SleepN(3): a wait longer than CYCLE_MAXIMUM - the hub's polling period must not shorten it)
+OpsQ == {Resched, SleepN(1), SleepN(3), SelT(2), SelFD("a", 1), Block, Raise, Call(<<SleepOp(1)>>, "ret"), Call(<<>>, "throw"),
          Call(<<SleepOp(1)>>, "throw")}
 ProgsQ1 == SeqsUpTo(OpsQ, 1)
 ProgsLv == SeqsUpTo({Resched, SleepN(1), SelT(2), SelFD("a", 1), Block, Call(<<SleepOp(1)>>, "ret")}, 1)
@@ -61,7 +62,7 @@ ProgsL2 == CS(1) \cup CS(2) \cup {<<Acq(1), Acq(2), Rel(2), Rel(1)>>, <<Acq(1), 
 ProgsExit == {<<Exit>>, <<Resched, Exit>>, <<Resched>>, <<SleepN(1)>>}
 \* timers
 TC(d, rec, stop) == [d |-> d, rec |-> rec, stop |-> stop]
-TimerCfgsAll == {TC(1, FALSE, 0), TC(2, TRUE, 0), TC(1, TRUE, 2), TC(0, FALSE, 0)}
+TimerCfgsAll == {TC(1, FALSE, 0), TC(2, TRUE, 0), TC(1, TRUE, 2), TC(0, FALSE, 0), TC(3, FALSE, 0)}
 NoTimers == {}
 ProgsT == {<<>>, <<Resched>>, <<SleepN(1)>>, <<SleepN(2), Resched>>}
 \* task priorities below 1 (Scheduler.cycle's head selection): small programs, 2 and 3 tasks
